@@ -1,6 +1,8 @@
 import Driver.GateParse
 import Q1t.Model.Square
 import Q1t.Spec.Square
+import Q1t.Model.Conj
+import Q1t.Spec.Clifford
 /-!
 Driver for C16 (`Square::square`).
 
@@ -16,8 +18,16 @@ Answers: `ok <n> <entries of square().matrix()> | <n> <entries of matrix()>`, or
 * `sqact <mask> <term> | <ψ1> | <ψ2> | <Ψ>` — the same, plus what the returned gate DOES: `ψ1`, `ψ2` are vectors of `2^n`
   amplitudes, `Ψ` a `2^n × 3` matrix (row-major).  Answer: `ok <sq matrix> | <matrix> | <square().apply(ψ1)> |
   <square().apply_slice(ψ2)> | <square().apply_mat(Ψ)>`; the model's answer is the returned gate's matrix times the input.
+
+* `sq2 <term>` — the returned gate squared again: `first err ..`, or `ok <sq2 matrix> | <sq matrix>`, or `err ..`.
+* `sqconj <term>` — stabilizer view: `ok <sq matrix> | <k> ; r ; .. | r ; ..` with `square().conjugate(P)` for all `4^k`
+  strings, then the original's `conjugate` applied twice; `r = ok <flip> <digits>` or `err`.
+
+`err OpNotImplemented <op> <gate>` carries the payload: `op` and the description of the refusing gate with the parameter
+lists removed (`U3`, `U3⊗I⊗I`, …).
 -/
 open Q1t Q1t.Proto Q1t.GateParse Q1t.CFloat
+open Q1t.Tableau (P)
 
 abbrev PG := GateTerm (Param Float)
 instance : Inhabited PG := ⟨.I⟩
@@ -87,9 +97,31 @@ def readAct (ws : List String) : Option (PG × Store Float × List CFloat × Lis
     | _ => none
   | _ => none
 
-def errName : SqErr → String
+mutual
+/-- `Gate::description()` without the parameter lists of RX RY RZ U1 U2 U3 -/
+partial def skel : PG → String
+  | .H => "H" | .X => "X" | .Y => "Y" | .Z => "Z" | .S => "S" | .Sdg => "S†" | .T => "T" | .Tdg => "T†"
+  | .V => "V" | .Vdg => "V†" | .I => "I" | .CX => "CX" | .CY => "CY" | .CZ => "CZ" | .Swap => "Swap"
+  | .RX _ => "RX" | .RY _ => "RY" | .RZ _ => "RZ" | .U1 _ => "U1" | .U2 _ _ => "U2" | .U3 _ _ _ => "U3"
+  | .C g => "C" ++ skel g
+  | .Kron a b => skel a ++ "⊗" ++ skel b
+  | .Composite nm _ _ => nm
+  | .Loop _ it nm _ _ => s!"{it}({nm})"
+/-- the gate whose `square()` produced `OpNotImplemented`: a `U3` (trait default; `C` forwards with `?`) or a `Kron`
+(which replaces any inner error by its own) -/
+partial def refuserSkel : PG → String
+  | .C g => refuserSkel g
+  | g => skel g
+/-- the descriptions of all sub-terms (outside loop bodies) -/
+partial def subSkels : PG → List String
+  | .C g => skel (.C g) :: subSkels g
+  | .Kron a b => skel (.Kron a b) :: (subSkels a ++ subSkels b)
+  | g => [skel g]
+end
+
+def errName (g : PG) : SqErr → String
   | .referenceArithmetic => "ReferenceArithmetic"
-  | .opNotImplemented => "OpNotImplemented"
+  | .opNotImplemented => "OpNotImplemented square " ++ refuserSkel g
   | .noImpl => "NoImpl"
 
 def handleAct (ws : List String) : String :=
@@ -102,11 +134,57 @@ def handleAct (ws : List String) : String :=
       if m2.isEmpty || m.isEmpty then "panic" else
       "ok " ++ showMat m2 ++ " | " ++ showMat m ++ " | " ++ showVec (LMat.mulVec m2 v1) ++ " | " ++
         showVec (LMat.mulVec m2 v2) ++ " | " ++ showVec (LMat.mul m2 m3).flatten
-    | .error e => "err " ++ errName e
+    | .error e => "err " ++ errName g e
   | none => "bad-op"
+
+def showR : Conj.Result → String
+  | .ok (flip, o) => s!"ok {if flip then 1 else 0} " ++ joinNats (o.map P.toBits)
+  | .error _ => "err"
+
+/-- `conjugate` twice, signs xor-ed -/
+def conjTwice (g : PG) (ops : List P) : Conj.Result :=
+  match Conj.conjugate g ops with
+  | .ok (f1, o1) => match Conj.conjugate g o1 with
+    | .ok (f2, o2) => .ok (f1 != f2, o2)
+    | .error e => .error e
+  | .error e => .error e
+
+def noStore : Store Float := ⟨fun _ => 0.0, fun _ => 0.0⟩
+
+def handleSq2 (ws : List String) : String :=
+  match parseGate ws with
+  | some (g0, []) =>
+    let g : PG := g0.mapP .direct
+    match Gate.square g with
+    | .error e => "first err " ++ errName g e
+    | .ok g2 =>
+      match Gate.square g2 with
+      | .error e => "err " ++ errName g2 e
+      | .ok g4 =>
+        let m4 : LMat CFloat := Gate.matrixAt noStore g4
+        let m2 : LMat CFloat := Gate.matrixAt noStore g2
+        if m4.isEmpty || m2.isEmpty then "panic" else "ok " ++ showMat m4 ++ " | " ++ showMat m2
+  | _ => "bad-op"
+
+def handleConj (ws : List String) : String :=
+  match parseGate ws with
+  | some (g0, []) =>
+    let g : PG := g0.mapP .direct
+    match Gate.square g with
+    | .error e => "err " ++ errName g e
+    | .ok g2 =>
+      let m2 : LMat CFloat := Gate.matrixAt noStore g2
+      let k := Gate.nrBits g
+      let strs := Spec.Clifford.allStrings k
+      if m2.isEmpty then "panic" else
+      "ok " ++ showMat m2 ++ s!" | {k} ; " ++ " ; ".intercalate (strs.map fun o => showR (Conj.conjugate g2 o)) ++
+        " | " ++ " ; ".intercalate (strs.map fun o => showR (conjTwice g o))
+  | _ => "bad-op"
 
 def handle (line : String) : String :=
   if (words line).head? = some "sqact" then handleAct (words line) else
+  if (words line).head? = some "sq2" then handleSq2 ((words line).drop 1) else
+  if (words line).head? = some "sqconj" then handleConj ((words line).drop 1) else
   match readReq (words line) with
   | some (g, s) =>
     match Gate.square g with
@@ -114,7 +192,7 @@ def handle (line : String) : String :=
       let m2 : LMat CFloat := Gate.matrixAt s g2
       let m : LMat CFloat := Gate.matrixAt s g
       if m2.isEmpty || m.isEmpty then "panic" else "ok " ++ showMat m2 ++ " | " ++ showMat m
-    | .error e => "err " ++ errName e
+    | .error e => "err " ++ errName g e
   | none => "bad-op"
 
 def maxDist (a b : LMat CFloat) : Float :=
@@ -160,9 +238,104 @@ def argmax (m : LMat CFloat) : Nat × Nat × Float :=
     row.zipIdx.foldl (fun acc (x, j) => if CFloat.normSq x > acc.2.2 then (i, j, CFloat.normSq x) else acc) acc)
     (0, 0, -1.0))
 
-/-- (B): the matrix of the returned gate equals `matrix()·matrix()` of the original up to ONE global
-phase (this forces exact equality of the controlled block of a controlled gate); an error is
-acceptable only where there is a cause (a non-`Direct` parameter, or a `U3`, outside loop bodies). -/
+/-- an error answer: acceptable only with a cause, and `OpNotImplemented` must carry ("square", description of a sub-gate) -/
+def checkErr (g : PG) (ans : List String) : String :=
+  if !refusalCause g then "fail square-refused-without-cause " ++ " ".intercalate ans else
+  match ans with
+  | ["err", "OpNotImplemented", op, gate] =>
+    if op ≠ "square" then s!"fail square-error-payload the operation named by OpNotImplemented is '{op}' (gate '{gate}'), not 'square'"
+    else if !(subSkels g).contains gate then s!"fail square-error-payload OpNotImplemented names gate '{gate}', not a sub-gate of the receiver"
+    else "ok"
+  | "err" :: "OpNotImplemented" :: _ => "fail square-error-payload malformed " ++ " ".intercalate ans
+  | _ => "ok"
+
+/-- the matrix statement: `sq = c · m·m` for one unit scalar `c`; returns the failure text or `none`, and `c · m·m` -/
+def matCheck (g : PG) (sq m : LMat CFloat) : Option String × LMat CFloat :=
+  let mm := LMat.mul m m
+  let (i, j, w) := argmax mm
+  if w < 1e-6 then (some "fail degenerate-matrix", mm) else
+  let num := LMat.get sq i j * Amp.conj Float (LMat.get mm i j)
+  let c : CFloat := ⟨num.re / w, num.im / w⟩
+  let dPhase := (CFloat.normSq c - 1.0).abs
+  let cmm := Spec.scale c mm
+  let d := maxDist sq cmm
+  if dPhase > 1e-9 || d > 1e-9 then
+    let cls := if hasU2UnderC g then "cu2-square" else "square-differs"
+    (some s!"fail {cls} not-equal-up-to-one-global-phase dist={d} |c|^2-1={dPhase} exactdist={maxDist sq mm}", cmm)
+  else (none, cmm)
+
+def specSq2 (req ans : String) : String :=
+  match parseGate ((words req).drop 1) with
+  | some (g0, []) =>
+    let g : PG := g0.mapP .direct
+    match words ans with
+    | "first" :: rest => checkErr g rest
+    | "err" :: rest =>
+      -- the receiver of the second call is the gate the first call returned
+      match Gate.square g with
+      | .ok g2 => checkErr g2 ("err" :: rest)
+      | .error _ => "fail second-square-of-a-refused-gate"
+    | "ok" :: rest =>
+      let (a, b) := splitBar rest
+      match parseMat a, parseMat b, Gate.square g with
+      | some sq2, some sq, .ok g2 => ((matCheck g2 sq2 sq).1).getD "ok"
+      | _, _, _ => "fail bad-answer"
+    | _ => "fail square-call-did-not-return " ++ " ".intercalate (words ans)
+  | _ => "fail bad-request"
+
+def splitSemis (ws : List String) : List (List String) :=
+  let rec go (acc : List String) (out : List (List String)) : List String → List (List String)
+    | [] => (acc.reverse :: out).reverse
+    | w :: rest => if w = ";" then go [] (acc.reverse :: out) rest else go (w :: acc) out rest
+  go [] [] ws
+
+def parseR : List String → Option (Bool × List P)
+  | "ok" :: f :: ds => do
+      let ds ← nats? ds
+      if f = "0" then pure (false, ds.map P.ofBits) else if f = "1" then pure (true, ds.map P.ofBits) else none
+  | _ => none
+
+def digits (ops : List P) : String := joinNats (ops.map P.toBits)
+
+open Q1t.Spec.Clifford in
+/-- (B) for `sqconj`: for every Pauli string, the returned gate's conjugation rule (a) equals the original's applied twice
+and (b) is exact for the returned gate's own matrix: `M·P·Mᴴ = ±P'`. -/
+def specConj (req ans : String) : String :=
+  match parseGate ((words req).drop 1) with
+  | some (g0, []) =>
+    let g : PG := g0.mapP .direct
+    match words ans with
+    | "err" :: rest => checkErr g ("err" :: rest)
+    | "ok" :: rest =>
+      match splitBars rest with
+      | [a, b, c] =>
+        match parseMat a, splitSemis b, splitSemis c with
+        | some M, kTok :: sqs, tws =>
+          let k := Gate.nrBits g
+          let strs := allStrings k
+          if kTok ≠ [toString k] ∨ sqs.length ≠ strs.length ∨ tws.length ≠ strs.length then "fail bad-answer" else
+          let bad := (strs.zip (sqs.zip tws)).filterMap fun (s, (x, y)) =>
+            match parseR x, parseR y with
+            | some (f, o), some (f', o') =>
+              if f ≠ f' ∨ o ≠ o' then
+                some s!"fail square-conjugation-differs-from-conjugating-twice P=[{digits s}] square().conjugate -> {" ".intercalate x}, original twice -> {" ".intercalate y}"
+              else
+                let dev := maxDist (conjBy Float M (pauliMat Float s)) (signed f (pauliMat Float o))
+                if dev > 1e-9 then
+                  some s!"fail square-conjugation-differs-from-matrix P=[{digits s}] -> {" ".intercalate x} but square().matrix() gives dev={dev}"
+                else none
+            | some (f, o), none =>
+              let dev := maxDist (conjBy Float M (pauliMat Float s)) (signed f (pauliMat Float o))
+              if dev > 1e-9 then some s!"fail square-conjugation-differs-from-matrix P=[{digits s}] -> {" ".intercalate x} dev={dev}" else none
+            | none, _ => none     -- the returned gate does not offer a conjugation rule: nothing claimed
+          match bad with
+          | [] => "ok"
+          | b :: _ => b
+        | _, _, _ => "fail bad-answer"
+      | _ => "fail bad-answer"
+    | _ => "fail square-call-did-not-return " ++ " ".intercalate (words ans)
+  | _ => "fail bad-request"
+
 def maxDistV (a b : List CFloat) : Float :=
   if a.length ≠ b.length then 1e9 else (List.zipWith CFloat.dist a b).foldl max 0
 
@@ -174,7 +347,7 @@ def specAct (req ans : String) : String :=
   | none => "fail bad-request"
   | some (g, _, v1, v2, m3) =>
     match words ans with
-    | "err" :: _ => if refusalCause g then "ok" else "fail square-refused-without-cause " ++ " ".intercalate (words ans)
+    | "err" :: _ => checkErr g (words ans)
     | "ok" :: rest =>
       match splitBars rest with
       | [a, b, o1, o2, o3] =>
@@ -204,15 +377,20 @@ def specAct (req ans : String) : String :=
       | _ => "fail bad-answer"
     | _ => "fail square-call-did-not-return " ++ " ".intercalate (words ans)
 
+/-- (B): the matrix of the returned gate equals `matrix()·matrix()` of the original up to ONE global
+phase (this forces exact equality of the controlled block of a controlled gate); an error is
+acceptable only where there is a cause (a non-`Direct` parameter, or a `U3`, outside loop bodies). -/
 def specCheck (line : String) : String :=
   match line.splitOn "\t" with
   | [req, ans] =>
     if (words req).head? = some "sqact" then specAct req ans else
+    if (words req).head? = some "sq2" then specSq2 req ans else
+    if (words req).head? = some "sqconj" then specConj req ans else
     match readReq (words req) with
     | none => "fail bad-request"
     | some (g, _) =>
       match words ans with
-      | "err" :: _ => if refusalCause g then "ok" else "fail square-refused-without-cause " ++ " ".intercalate (words ans)
+      | "err" :: _ => checkErr g (words ans)
       | "ok" :: rest =>
         let (a, b) := splitBar rest
         match parseMat a, parseMat b with
